@@ -1,6 +1,6 @@
 (* C09/Proofs.v — most_specific mode picks the first lexicographic maximum; proofs for all oracles. *)
 From Coq Require Import String Ascii List Bool ZArith Arith Lia Permutation.
-From Tally Require Import Lib.Str Engine.StrLib Gen.C09Specificity Engine.Model Engine.Lemmas.
+From Tally Require Import Lib.Str Engine.StrLib Gen.C09Specificity Engine.Model Engine.Lemmas Engine.Loader.
 Import ListNotations.
 Open Scope string_scope.
 
@@ -190,4 +190,38 @@ Lemma first_max_unique_winner : forall l w1 w2, first_max l w1 -> first_max l w2
 Proof.
   intros l w1 w2 (b1 & a1 & E1 & B1 & A1) (b2 & a2 & E2 & B2 & A2).
   destruct (first_max_unique b1 l w1 w2 a1 b2 a2 E1 B1 A1 E2 B2 A2) as (_ & E & _). exact E.
+Qed.
+
+(* ------------------------------------------------------------------------------------------------- *)
+(* the ranking in terms of the file AS WRITTEN (Engine/Loader.v: priority text -> int, absent -> 50) *)
+Lemma priority_as_written :
+  load_priority PAbsent = Some 50%Z /\
+  load_priority (PText "0") = Some 0%Z /\
+  (forall (neg : bool) ds, Forall (fun d => (d < 10)%nat) ds -> ds <> [] ->
+     load_priority (PText ((if neg then "-" else "") ++ digits_string ds)) =
+     Some (if neg then (- digits_value ds)%Z else digits_value ds)).
+Proof.
+  split; [reflexivity|]. split; [reflexivity|]. intros neg ds F N. unfold load_priority. apply parse_int_decimal; assumption.
+Qed.
+
+Lemma loaded_spec : forall blocks rules,
+  load_blocks 0 blocks = Some rules ->
+  length rules = length blocks /\
+  forall k b, nth_error blocks k = Some b ->
+    exists r p, nth_error rules k = Some r /\ load_priority (f_priority b) = Some p /\
+                spec_of r = (p, pattern_count (f_match b), constraint_kinds (f_match b), pattern_length (f_match b)) /\
+                r_category r = f_category b /\ r_subcategory r = f_subcategory b /\
+                r_merchant r = (if is_empty (f_merchant b) then f_name b else f_merchant b).
+Proof.
+  intros blocks rules H. destruct (load_blocks_nth _ _ _ H) as [L N]. split; [exact L|].
+  intros k b K. destruct (N k b K) as (r & A & B). cbn in B.
+  destruct (load_block_fields _ _ _ B) as (P & M & C & S & _ & Me & _).
+  exists r, (r_priority r). repeat split; auto.
+  rewrite spec_of_components, M. reflexivity.
+Qed.
+
+(* every block with a non-empty [Name] "sets a merchant" once loaded (why tag-only rules compete for the merchant) *)
+Lemma loaded_has_merchant : forall id b r, load_block id b = Some r -> is_empty (f_name b) = false -> has_merchant r = true.
+Proof.
+  intros id b r H N. destruct (load_block_fields _ _ _ H) as (_ & _ & _ & _ & _ & _ & Hm). rewrite Hm, N. reflexivity.
 Qed.
